@@ -96,6 +96,11 @@ CHECKS = {
         text="Generated-input search: for all pairings on <=8/11 positions and drawn structures with components of <=6/8 stems, the produced list is compared as a set of per-stem level vectors with the product of all Grundy (greedy-stable) proper colourings computed without permutations; also no repetition, contains optimal and FCFS, singleton for knot-free.",
         note=TRUST + "Components above 8 stems are outside the property's quantifier and are not generated.",
         ref="3 C16"),
+    "C19": dict(
+        technique="exhaustive enumeration of all labels up to length 5/6 over the FR3D alphabet against a three-valued reference classifier + Hypothesis-generated listings and DSSR documents against a line-by-line / entry-by-entry reference import",
+        text="Generated-input search: the label space over the 19-symbol FR3D alphabet is enumerated completely up to length 5 (2.6M, quick) or 6 (49M, thorough) and every classification compared with a reference written from the statement (open cases accept either reading); generated listings mix valid lines, near misses and garbage and must import without raising, one interaction per line with two well-formed unit ids, exact identities, correct list and class, file order; generated single-/multi-model DSSR documents must keep exactly the resolvable valid pairs and consecutive resolvable stack members.",
+        note=TRUST + "Python-int leniency in unit-id numbers is kept out of the generator. An atheris byte-level tier is not registered (the grammar is small text; Hypothesis grammars reach the logic directly).",
+        ref="3 C19"),
 }
 
 PENDING_REASON = "check not built yet in this revision of /verif (planned in DESIGN.md section 3); not claimed until it runs quiet on the unchanged tree"
